@@ -10,6 +10,9 @@
 2. correspondence: the extracted marker-level model (ml/C09_driver) parses the real header bytes of
                   streams produced by the real encoder under several partitions and must print the same
                   canonical header line as harness/c09.c `hdr` (jpeg_read_header of the working tree).
+3'. encoder through jpeg_mem_dest with NULL and application-supplied initial buffers of every size class; buffered-image
+    display loop (pass on input_scan_number started at every point of the input) must show the final image when it ends
+    with the input complete.
 3. property-level oracle on the implementation (independent of the model): every stream is decoded
    through jpeg_mem_src, jpeg_stdio_src and a SUSPENDING source manager (1-byte chunks, every single
    split position, random partitions), in the standard API and in buffered-image mode under random legal
@@ -195,6 +198,11 @@ def run(ctx):
                     pts = [(c1, rows, reps) for c1 in range(0, 44) for rows in (0, 2, 255) for reps in (1, 2)]
                 else:
                     pts = [(srng.below(40), srng.choice([0, 1, 3, 255]), srng.choice([1, 1, 2, 3])) for _ in range(ctx.n(6, 20))]
+                # the documented display loop: a complete pass on input_scan_number started after c1 consume_input calls,
+                # for every c1 (inside every scan, in particular the last one): if it ends with the input complete its
+                # pixels must be the final image (the harness turns a difference into ok=2 err=-88)
+                if sv == savecfgs[0]:
+                    pts = pts + [(c1, 255, 1) for c1 in range(0, 80 if proc in (2, 3, 6, 7, -1) else 14)]
                 for (c1, rows, reps) in pts:
                     cmds.append("ref 0 %d %d" % (early_api(c1, rows, reps), sv)); plan.append(("sched", 0, sv))
                 for (c1, rows, reps) in pts[::ctx.n(13, 5)]:
@@ -355,6 +363,40 @@ def run(ctx):
                 ctx.violation("compressed bytes depend on the destination manager (buffer %d bytes, %s build): %s" % (bs, fl, line[:120]),
                               {"kind": "enc", "cmd": cmd, "flavour": fl, "result": line}, signature="enc-mismatch:" + line.split()[1])
             ctx.count("enc", 1, ("enc", line.split("refusals")[0][:80], bs < 65))
+    # ------------------------------------------------ jpeg_mem_dest with application-supplied buffers
+    mrng = core.SplitMix64(ctx.seed * 4099 + 11)
+    mcmds = []
+    for i in range(ctx.n(10, 120)):
+        proc = [0, 0, 4, 2, 1, 0, 4, 3][i % 8]
+        nc = mrng.choice([1, 3, 3])
+        q = mrng.choice([2, 8, 8, 12, 16]) if proc == 4 else mrng.choice([50, 75, 90, 100])
+        rst = (mrng.choice([0, -1]) if proc == 4 else mrng.choice([0, 1, 3, 7, -1])) if i % 2 else 0
+        if proc == 4 and nc == 3 and q < 3:
+            q = 8
+        mcmds.append("memdst %d %d %d %d %d %d %d %d %d 0" % (proc, mrng.range(24, 72), mrng.range(20, 56), nc,
+                                                            0 if proc == 4 else mrng.below(5), q, rst, mrng.below(1 << 30), mrng.below(1 << 40)))
+    t0 = time.time()
+    for fl in flavours:
+        rc, res, err = Runner(ctx, exes[fl], fl).run(mcmds)
+        if rc != 0 or len(res) < len(mcmds):
+            idx = min(len(res), len(mcmds) - 1)
+            ctx.violation("jpeg_mem_dest encoder crashed/aborted (%s build, rc=%d): %s" % (fl, rc, err[-300:]),
+                          {"kind": "memdst", "cmd": mcmds[idx], "flavour": fl}, signature="crash:memdst")
+            continue
+        for cmd, line in zip(mcmds, res):
+            t = line.split()
+            if len(t) >= 3 and t[2] == "ok":
+                total_sched += int(t[1])
+            elif line.startswith("M err"):
+                ctx.log("memdst generator refused", cmd)
+            else:
+                size = line.split("size=")[1].split()[0] if "size=" in line else "0"
+                one = " ".join(cmd.split()[:-1]) + " " + size
+                ctx.violation("jpeg_mem_dest output depends on the application-supplied initial buffer size (%s build): %s" % (fl, line[:120]),
+                              {"kind": "memdst", "cmd": one, "flavour": fl, "result": line},
+                              signature="memdst-mismatch:proc%s" % cmd.split()[1])
+            ctx.count("memdst", 1, ("memdst", line[:60]))
+    tm["memdst"] = time.time() - t0
     if drv:
         ctx.cov["traces_validated_against_impl"] = corr
     ctx.cov["model_impl_disagreements"] = disagree
@@ -376,6 +418,12 @@ def run(ctx):
 def report(ctx, s, fl, kind, cmd, ref, got, refcmd):
     names = diff_names(ref, got)
     mode = "std" if cmd.split()[2] == "0" else "bufimage"
+    if " ok=2 err=-88 " in got:
+        ctx.violation("buffered-image display loop: a complete pass on input_scan_number started inside the last scan ended with the "
+                      "input complete but its pixels differ from the final image (%s, %s build): %s" % (kind, fl, cmd[:70]),
+                      {"kind": "dec", "hex": s["hex"], "origin": s["origin"], "cmd": cmd, "refcmd": refcmd, "flavour": fl,
+                       "reference": ref, "got": got}, signature="display-pass-incomplete:%s" % kind)
+        return
     ctx.violation("decode differs from the whole-buffer decode in [%s] (%s, %s API, %s build): %s" % (names, kind, mode, fl, cmd[:70]),
                   {"kind": "dec", "hex": s["hex"], "origin": s["origin"], "cmd": cmd, "refcmd": refcmd, "flavour": fl,
                    "reference": ref, "got": got},
@@ -392,6 +440,15 @@ def replay(ctx, exes, drv):
         ctx.count("replay-enc", 1, line)
         if not line.startswith("C ok"):
             ctx.violation("compressed bytes depend on the destination manager: " + line[:120], r, signature=r.get("signature"))
+        return
+    if r.get("kind") == "memdst":
+        rc, res, err = Runner(ctx, exe, fl).run([r["cmd"]])
+        line = res[0] if res else "<crash rc=%d>" % rc
+        ctx.count("replay-memdst", 1, line)
+        if " ok " not in line:
+            ctx.violation("jpeg_mem_dest output depends on the application-supplied initial buffer size: " + line[:120], r,
+                          signature=r.get("signature"))
+        ctx.log("replay:", line)
         return
     if r.get("kind") == "dec":
         cmds = ["load 0 " + r["hex"], r.get("refcmd", "ref 0 0 0"), r["cmd"]]
